@@ -39,6 +39,15 @@ sensitivity is back projected with.  Further sources transcribed:
   run before (l.251-272: every branch replaces `precomputed_denominator_ptr`), followed by `reconstruct(target)`;
 * `OSSPSReconstruction::set_defaults` (`Params.default`) is also what a parameter file that does not mention the OSSPS keys
   leaves (`initialise` = `set_defaults` + `parse`).
+* segment / TOF range of the objective function: `max_segment_num_to_process`, `max_timing_pos_num_to_process`
+  (`Problem.maxSegToProcess`, `.maxTofToProcess`; `none` = -1 = all of the data) as
+  `PoissonLogLikelihoodWithLinearModelForMeanAndProjData::set_up_before_sensitivity` (:600-623: a range larger than the data's is
+  an `error()`; :676-682: TOF data, no TOF sensitivities, restricted TOF range → TOF sensitivities after all) and every loop over
+  `-max…to_process … +max…to_process` have it: `actual_subsets_are_approximately_balanced` (:513), `add_subset_sensitivity` (:922-930),
+  `actual_compute_subset_gradient_without_penalty` (:761-769), `actual_add_multiplication_with_approximate_sub_Hessian_without_penalty`
+  (:1025-1028) — `Problem.processed`;
+* a `PriorWithParabolicSurrogate` other than the quadratic one (`LogcoshPrior`): only what `OSSPSReconstruction` asks of it
+  (`prior_is_zero`, `parabolic_surrogate_curvature_depends_on_argument`); its gradient and curvature are data (`Problem.opaquePrior`).
 Not modelled: the random permutation of `randomise_subset_order` (the subset used is data; that every full iteration uses a
 permutation is C06's and the harness oracle's), `write_update_image`, 32-bit overflow.
 Core Lean only.
@@ -376,6 +385,9 @@ structure Row where
   norm : Rat := 1
   /-- first or last axial position of segment 0 and `zero_seg0_end_planes` is set -/
   zeroed : Bool := false
+  /-- segment number and TOF bin (`timing_pos_num`) of the bin -/
+  seg : Int := 0
+  tof : Int := 0
   deriving Repr, Inhabited
 
 /-- the bin's value in the `mult_viewgrams` of `distributable.cxx: get_viewgrams`: ones, `normalisation->undo` (divide by the
@@ -414,7 +426,43 @@ structure Problem where
   /-- TOF data without `use time-of-flight sensitivities`: the rows (subset, normalisation factor, zeroed, elements) of the
       non-TOF matrix of the cloned back projector the sensitivity is computed with; `none`: the data's own rows -/
   sensRows : Option (Array Row) := none
+  /-- `max_segment_num_to_process` (setter / keyword `maximum absolute segment number to process`); `none`: -1, which `set_up`
+      replaces by the data's maximum segment number: all rows -/
+  maxSegToProcess : Option Int := none
+  /-- `max_timing_pos_num_to_process` (setter only); `none`: -1 = all TOF bins of the data -/
+  maxTofToProcess : Option Int := none
+  /-- `proj_data_sptr->get_max_segment_num()`, `->get_max_tof_pos_num()` -/
+  dataMaxSeg : Int := 0
+  dataMaxTof : Int := 0
+  /-- a prior object that is a `PriorWithParabolicSurrogate` but not the quadratic one (`LogcoshPrior`), with non-zero
+      penalisation factor; the value is what its `parabolic_surrogate_curvature_depends_on_argument()` returns (`LogcoshPrior`:
+      `false`).  Its gradient and curvature are not modelled: `Problem.grad` / `.curv` then give the likelihood part / zero and
+      are not to be used; `OSSPSReconstruction` (`updateEstimate`) is modelled for it with the prior's answers as data. -/
+  opaquePrior : Option Bool := none
   deriving Repr, Inhabited
+
+/-- `-m <= a <= m`: the loops `for (segment_num = -max_segment_num_to_process; segment_num <= max_segment_num_to_process; …)` -/
+def inSymRange (m : Option Int) (a : Int) : Bool :=
+  match m with
+  | none => true
+  | some m => decide (-m ≤ a) && decide (a ≤ m)
+
+/-- the bin belongs to the segment range AND the TOF range the objective function processes: every quantity of the objective
+    function (sensitivity, sub-gradient, approximate Hessian, balancing of the subsets) runs over exactly these bins -/
+def Problem.processed (q : Problem) (r : Row) : Bool :=
+  inSymRange q.maxSegToProcess r.seg && inSymRange q.maxTofToProcess r.tof
+
+/-- `set_up_before_sensitivity` (:606, :619): `error("max_segment_num_to_process (%d) is too large")`, same for TOF -/
+def Problem.rangeOk (q : Problem) : Bool :=
+  (match q.maxSegToProcess with | none => true | some m => decide (m ≤ q.dataMaxSeg)) &&
+  (match q.maxTofToProcess with | none => true | some m => decide (m ≤ q.dataMaxTof))
+
+/-- `max_timing_pos_num_to_process < proj_data_info_sptr->get_max_tof_pos_num()` (:677): then `use_tofsens` is switched on
+    ("the non-TOF sensitivity is the sum over all TOF bins") -/
+def Problem.tofRestricted (q : Problem) : Bool :=
+  match q.maxTofToProcess with
+  | none => false
+  | some m => decide (m < q.dataMaxTof)
 
 def Problem.nvox (q : Problem) : Nat := q.nz * q.ny * q.nx
 
@@ -441,6 +489,8 @@ def Row.backInto (r : Row) (v : Rat) (out : Array Rat) : Array Rat :=
 /-- per-viewgram maxima of a per-bin quantity (`Viewgram::find_max`; every viewgram has at least one bin) -/
 def viewgramMax (q : Problem) (f : Row → Rat) : Array (Option Rat) :=
   q.rows.foldl (fun m r =>
+    -- (only viewgrams of the segment / TOF range to process are ever read)
+    if !q.processed r then m else
     let v := f r
     m.modify r.vg (fun o => match o with | none => some v | some w => some (maxR w v))) (Array.replicate q.numViewgrams none)
 
@@ -456,7 +506,7 @@ def smallValueOf (m : Array (Option Rat)) (vg : Nat) (sn : Rat) : Rat :=
 def Problem.gradLik (q : Problem) (subset : Int) (x : Array Rat) : Array Rat :=
   let ymax := viewgramMax q (fun r => if r.zeroed then 0 else r.y)
   q.rows.foldl (fun out r =>
-    if r.subset != subset then out
+    if r.subset != subset || !q.processed r then out
     else
       let y := if r.zeroed then 0 else r.y
       let add := if r.zeroed then 0 else r.add
@@ -474,7 +524,7 @@ def Problem.hessOnes (q : Problem) : Array Rat :=
   let fwd (r : Row) : Rat := if r.zeroed then 0 else r.forward ones
   let fmax := viewgramMax q fwd
   q.rows.foldl (fun out r =>
-    if r.subset < 0 || r.subset ≥ q.numSubsets then out
+    if r.subset < 0 || r.subset ≥ q.numSubsets || !q.processed r then out
     else
       let quot := divideAndTruncate (smallValueOf fmax r.vg SMALL_NUM) (fwd r) (r.y * r.norm * r.norm)
       r.backInto (-quot) out) (Array.replicate q.nvox 0)
@@ -484,7 +534,9 @@ def Problem.hessOnes (q : Problem) : Array Rat :=
     non-TOF matrix when the data are TOF and `use time-of-flight sensitivities` is off.  With `use_subset_sensitivities` off
     the subset sensitivities are accumulated into one image right away: the same sum. -/
 def Problem.sensitivity (q : Problem) : Array Rat :=
-  (q.sensRows.getD q.rows).foldl (fun out r => if r.subset < 0 || r.subset ≥ q.numSubsets then out else r.backInto r.mult out)
+  -- a restricted TOF range switches `use_tofsens` on: the data's own (TOF) rows
+  (if q.tofRestricted then q.rows else q.sensRows.getD q.rows).foldl
+    (fun out r => if r.subset < 0 || r.subset ≥ q.numSubsets || !q.processed r then out else r.backInto r.mult out)
     (Array.replicate q.nvox 0)
 
 /-- number of viewgrams (view, segment[, TOF bin]) in every subset.  (`actual_subsets_are_approximately_balanced` counts, per
@@ -492,7 +544,8 @@ def Problem.sensitivity (q : Problem) : Array Rat :=
     subset's number is C06's subject.  With TOF every view/segment counts once per TOF bin in every subset alike.) -/
 def Problem.viewgramsPerSubset (q : Problem) : Array Nat :=
   let vgSubset : Array (Option Int) :=
-    q.rows.foldl (fun m r => m.modify r.vg (fun _ => some r.subset)) (Array.replicate q.numViewgrams none)
+    q.rows.foldl (fun m r => if !q.processed r then m else m.modify r.vg (fun _ => some r.subset))
+      (Array.replicate q.numViewgrams none)
   vgSubset.foldl (fun c o =>
     match o with
     | some s => if 0 ≤ s && s < q.numSubsets then c.modify s.toNat (· + 1) else c
@@ -505,8 +558,16 @@ def Problem.balanced (q : Problem) : Bool :=
   c.all (fun n => n == c.getD 0 0)
 
 /-- `PoissonLogLikelihoodWithLinearModelForMean::set_up` (:275): unbalanced subsets are refused unless
-    `use_subset_sensitivities` is on -/
-def Problem.setUpOk (q : Problem) : Bool := q.balanced || q.useSubsetSens
+    `use_subset_sensitivities` is on; `set_up_before_sensitivity`: a segment / TOF range larger than the data's is an error -/
+def Problem.setUpOk (q : Problem) : Bool := q.rangeOk && (q.balanced || q.useSubsetSens)
+
+/-- the problem whose DATA consist of the processed bins only, with no restriction left: by `C08_restricted_range_is_one_matrix`
+    every quantity of `q` is that quantity of `q.restrict` — gradient, sensitivity and approximate Hessian (hence D) belong to one
+    and the same system matrix -/
+def Problem.restrict (q : Problem) : Problem :=
+  { q with rows := q.rows.filter q.processed,
+           sensRows := if q.tofRestricted then none else q.sensRows.map (fun a => a.filter q.processed),
+           maxSegToProcess := none, maxTofToProcess := none }
 
 /-- sensitivity == 0 (`PoissonLogLikelihoodWithLinearModelForMean::fill_nonidentifiable_target_parameters` tests
     `*sens_iter == 0`); matrix rows may contain elements whose value is 0 -/
@@ -544,6 +605,9 @@ def Prior.curvature (pr : Prior) (nz ny nx : Nat) (x : Array Rat) : Array Rat :=
 
 /-- `GeneralisedObjectiveFunction::prior_is_zero` -/
 def Problem.priorIsZero (q : Problem) : Bool :=
+  match q.opaquePrior with
+  | some _ => false
+  | none =>
   match q.prior with
   | none => !q.priorNotParabolic
   | some pr => pr.beta == 0
@@ -578,7 +642,9 @@ def Problem.toObjectiveWith (q : Problem) (hess : Img) (mask : List Bool) : Obje
   priorIsZero := q.priorIsZero
   priorParabolic := !q.priorNotParabolic
   curv := fun x => (q.curv x.toArray).toList
-  curvDepends := match q.prior with | some pr => pr.depends | none => true
+  curvDepends := match q.opaquePrior with
+    | some d => d
+    | none => match q.prior with | some pr => pr.depends | none => true
   fillNonIdent := fillMask mask
   setUpOk := q.setUpOk
 
